@@ -87,6 +87,19 @@ def bad_payloads(rng, cd, good):
         out.append(bytes([h, 0xff, 0xff, 0x41]))
         out.append(bytes([h, 0x00, 0x01, 0x41, 0x00]))
         out.append(bytes([h, 0x00, 0x01, 0x41, 0x00, 0x09, 0x41]))
+    # aggregation packets whose 16-bit size fields sit on the arithmetic boundaries (wrap of uint16 / int16
+    # sums: 0xfff0..0xffff, 0x7fff / 0x8000), at the first and at a later unit position
+    if cd in (H264, H265):
+        hdr = bytes([0x78]) if cd == H264 else bytes([0x60, 0x01])
+        unit = bytes([0x41, 0x9a, 1, 2]) if cd == H264 else bytes([0x02, 0x01, 1, 2])
+        edge = [0xfff0, 0xfff8, 0xfffb, 0xfffc, 0xfffd, 0xfffe, 0xffff, 0x7ffe, 0x7fff, 0x8000, 0x8001, 0xff00]
+        for n in edge:
+            sz = n.to_bytes(2, "big")
+            out.append(hdr + sz + unit)                                              # first unit
+            out.append(hdr + len(unit).to_bytes(2, "big") + unit + sz + unit)        # second unit
+            out.append(hdr + sz)                                                     # size field, nothing behind it
+        for n in (0xfffc, 0xffff, 0x8000):
+            out.append(hdr + len(unit).to_bytes(2, "big") + unit + len(unit).to_bytes(2, "big") + unit + n.to_bytes(2, "big") + unit[:1])
     # parameter-set NAL units that must not replace the stream's own sets: truncated, bit-flipped, oversized,
     # alone and inside an aggregation packet
     if cd == H264:
@@ -201,6 +214,18 @@ def run(ck):
                     ksuf = rng.choice([ndata, ndata + 1, rng.randint(0, 65535)])
                     plans.append([cd, clock, cc, seq0, ksuf, pin, e2, gen_suffix(rng, cd)])
                     kind("payload fault (truncation / corrupted field / hostile payload)")
+        # size-field boundaries of aggregation packets, in every video stream (not left to sampling)
+        for (cd, clock, cc, seq0, evs, ndata) in base:
+            if cd == AAC:
+                continue
+            hdr = bytes([0x78]) if cd == H264 else bytes([0x60, 0x01])
+            unit = bytes([0x41, 0x9a, 1, 2]) if cd == H264 else bytes([0x02, 0x01, 1, 2])
+            for n in (0xfff0, 0xfffb, 0xfffc, 0xfffd, 0xfffe, 0xffff, 0x7fff, 0x8000):
+                for pl in (hdr + n.to_bytes(2, "big") + unit, hdr + len(unit).to_bytes(2, "big") + unit + n.to_bytes(2, "big") + unit):
+                    pos = rng.randrange(len(evs) + 1)
+                    e2 = evs[:pos] + [[4, 31000, 555, 0, pl]] + evs[pos:]
+                    plans.append([cd, clock, cc, seq0, ndata, [rng.randint(1, 2**32 - 1), 7, 9], e2, gen_suffix(rng, cd)])
+                    kind("payload fault (truncation / corrupted field / hostile payload)")
         # a parameter set reassembled from fragments (FU-A / FU): start + end fragment with consecutive sequence numbers
         for (cd, clock, cc, seq0, evs, ndata) in base:
             if cd == AAC:
@@ -255,6 +280,7 @@ def run(ck):
                 for e in evs:
                     if e[0] == 4:
                         pls += bad_payloads(rng, cd, e[4])[: (400 if T else 30)] + [e[4]]
+            pls += bad_payloads(rng, cd, b"")        # all free-standing hostile payloads incl. the size-field boundaries
             pls += [c06.rbytes(rng, rng.randint(0, 12)) for _ in range(2000 if T else 150)]
             kind("classifier payload", len(pls))
             ck.stream(name, pls, "C07_" + name, name, "C07_alive", nontrivial=lambda c: len(c) >= 3,
@@ -362,6 +388,12 @@ def run(ck):
                  bytes([0x27, 0x64, 0x00]), bytes([0x28])]
         for pl in psets:
             faults.append(rtp_frame(0, pl))                      # malformed in-band parameter sets (shared metadata)
+        edges = []
+        for n in (0xfff0, 0xfffc, 0xfffd, 0xfffe, 0xffff, 0x7fff, 0x8000):
+            edges.append(bytes([0x78]) + n.to_bytes(2, "big") + bytes([0x41, 0x9a, 1]))
+            edges.append(bytes([0x78, 0, 2, 0x41, 0x9a]) + n.to_bytes(2, "big") + bytes([0x65, 1]))
+        for pl in edges:
+            faults.append(rtp_frame(0, pl))                      # aggregation size fields on the uint16 / int16 boundaries
         some = base[0][4] if base else []
         good_v = next((e[4] for (cd, _, _, _, evs, _) in base if cd == H264 for e in evs if e[0] == 4), bytes([0x41, 1, 2, 3]))
         good_a = next((e[4] for (cd, _, _, _, evs, _) in base if cd == AAC for e in evs if e[0] == 4), bytes([0, 16, 0, 16, 1, 2]))
@@ -377,7 +409,7 @@ def run(ck):
         faults = [calm(f) for f in faults]
         rng.shuffle(faults)
         if not T:
-            faults = joinshape_first(faults, [calm(rtp_frame(0, pl)) for pl in joinshape + psets], 420)
+            faults = joinshape_first(faults, [calm(rtp_frame(0, pl)) for pl in joinshape + psets + edges], 420)
         per = 140
         iso = [[1, faults[i:i + per]] for i in range(0, len(faults), per)]
         # the malformed parameter set is the very first packet of the stream (before any sequence header / segment)
